@@ -226,8 +226,12 @@ impl TransportConstraint {
                 TravelTime::Arrival(latest_arr_time_at_next),
             );
 
-        let latest_arr_time_at_target =
-            target.place.time.end.min(self.activity.estimate_arrival(route, target, latest_departure_at_target));
+        let latest_arr_time_at_target = if next.is_some() {
+            target.place.time.end.min(self.activity.estimate_arrival(route, target, latest_departure_at_target))
+        } else {
+            // open vrp: nothing follows the target, so only its own time window (and the shift end) binds
+            latest_arr_time_at_next
+        };
 
         if arr_time_at_target > latest_arr_time_at_target {
             return ConstraintViolation::skip(self.time_window_code);
